@@ -23,7 +23,8 @@ open RsslVerif.Lemmas.Slots (ParamsOk paramsFor_ok)
     `DescriptorBinding` literals are filled, the shape of msl `generate_pipeline`, of the HLSL annotation
     generators, of the formatter's register / attribute printers, of `build_pipeline`'s stage records, of
     `parse_pipeline` / `add_stage` (property order, order of the checks, last numthreads attribute wins, entry lookup
-    among all functions), of the places names are read from (name map vs cbuffer registry, Metal's cbuffer
+    among all functions), of `parse_function_attributes` (a kind of attribute is accepted once), of Metal's entry
+    function arguments (`UnboundGlobal`), of the places names are read from (name map vs cbuffer registry, Metal's cbuffer
     globals) and of the thread group size attributes both exporters print. -/
 theorem source_shape_as_modelled :
     hlslCbufferEntry = ⟨true, true, true, true, false, true, false, true, true, false⟩ ∧
@@ -32,12 +33,13 @@ theorem source_shape_as_modelled :
     hlslCbufferDescType = some .ConstantBuffer ∧ mslRejectsCbufferRoot = true ∧
     hlslNameIsGeneratedName = true ∧ mslNameIsGeneratedName = true ∧ hlslReportsEmittedName = true ∧
     mslRejectsGroupWithoutArgumentBuffer = true ∧ usageFacts = ⟨true, true, true, true⟩ ∧
-    mslPipelineFacts = ⟨true, true, true, true, true, true, true⟩ ∧
+    mslPipelineFacts = ⟨true, true, true, true, true, true, true, true, true, true⟩ ∧
     hlslAnnotFacts = ⟨true, true, true, true, true, true, true, true, true, true, true, true, true, true, true,
                       true, true, true, true⟩ ∧
-    attributeShapeAsModelled = true ∧ stagesCopyKindAndThreadGroupSize = true ∧
+    attributeShapeAsModelled = true ∧ attributeArgumentLiteralsBare = true ∧ stagesCopyKindAndThreadGroupSize = true ∧
     metadataIsExportersDescription = true ∧ entryLookupIsByNameAmongAllFunctions = true ∧
-    frontFacts = ⟨true, true, true, true, true, true, true, true, true, true, true, true, true, true, true, true⟩ ∧
+    frontFacts = ⟨true, true, true, true, true, true, true, true, true, true, true, true, true, true, true, true,
+                  true⟩ ∧
     (regOpen, regSep, regSpace, regClose) = (" : register(", ", ", "space", ")") := by decide
 
 /-- The two exporters use the same ObjectType ↦ DescriptorType table. -/
@@ -412,42 +414,17 @@ theorem annotations_match_metadata_hlsl {p : Params} {dflt : Nat} :
                     · exact hrest.2 x hx
 
 open RsslVerif.Lemmas.MetaTotal RsslVerif.Lemmas.Slots in
-/-- **The HLSL metadata builder is total on the allocator's output.**  For every module whose object-typed globals
-    use kinds that have a descriptor type, every default group and every parameter set `compile()` can pass:
-    once `assign_api_bindings` returned, `analyse_bindings` + `generate_inline_constant_buffers` return a
-    `PipelineDescription` — `bind_groups[buffer.set]` is in range and none of the three asserts
-    (`offset + 8 <= size`, `size == found_size`, `inline_constants == None`) can fire, because per bind group the
-    inline entries account for exactly the bytes the allocator handed out. -/
-theorem hlsl_metadata_total {p : Params} (hp : ParamsOk p) {dflt : Nat} {ds : List MDecl} {res : Result}
-    (h : assign p dflt (ds.map MDecl.toSlot) = .ok res)
-    (hdesc : ∀ n s ss k arr bl st, MDecl.global n s ss (some k) arr bl st ∈ ds → (hlslDescType k).isSome) :
+/-- once the allocator returned and every single `analyse_bindings` call did, `generate_inline_constant_buffers`
+    returns: `bind_groups[buffer.set]` is in range and none of its three asserts can fire -/
+theorem hlslMeta_ok_of_events {p : Params} (hp : ParamsOk p) {dflt : Nat} {ds : List MDecl} {res : Result}
+    (h : assign p dflt (ds.map MDecl.toSlot) = .ok res) {evs : List (Nat × Entry)}
+    (hevs : events (fun _ => hlslEvent) 0 ds res.bindings = .ok evs) :
     ∃ groups, hlslMeta p dflt ds = .ok groups := by
   have hpw := (RsslVerif.Thm.C06.inline_buffers_correct hp h).2.2
   have hpos := (RsslVerif.Thm.C06.inline_buffers_correct hp h).1
-  have hev : ∀ d ∈ ds, ∀ ob, ∃ o, hlslEvent d ob = .ok o := by
-    intro d hd ob
-    cases d with
-    | other => exact ⟨none, rfl⟩
-    | cbuffer n s => cases ob <;> exact ⟨_, rfl⟩
-    | global n s ss k arr bl st =>
-      have hdo : ∃ dt, descOf hlslDescType hlslNonObjectDescType k = .ok dt := by
-        cases k with
-        | none => exact ⟨_, rfl⟩
-        | some k =>
-          have := hdesc n s ss k arr bl st hd
-          cases hk : hlslDescType k with
-          | none => simp [hk] at this
-          | some dt => exact ⟨dt, by simp [descOf, hk]⟩
-      obtain ⟨dt, hdt⟩ := hdo
-      cases ob with
-      | none => exact ⟨none, by simp [hlslEvent, hdt]⟩
-      | some b =>
-        exact ⟨some (b.set, { name := n, loc := b.loc, descType := dt, count := countOf arr, bindless := bl,
-                              used := true, staticSampler := ss }), by simp [hlslEvent, hdt]⟩
   unfold hlslMeta
   rw [h]
   simp only
-  obtain ⟨evs, hevs⟩ := events_total ds hev res.bindings 0
   rw [hevs]
   simp only
   unfold assign at h
@@ -469,46 +446,218 @@ theorem hlsl_metadata_total {p : Params} (hp : ParamsOk p) {dflt : Nat} {ds : Li
       exact registerAll_noIC evs [] (by intro g hg; cases hg) grp (List.mem_of_getElem? hg)
 
 open RsslVerif.Lemmas.MetaTotal RsslVerif.Lemmas.Slots in
-/-- **Metal: metadata, or the clean refusal.**  Without buffer addresses (Metal's parameter set), for every module
-    whose object-typed globals use kinds that have a descriptor type: once the allocator returned, the Metal
-    metadata builder either returns a `PipelineDescription` or refuses the file with `UnsupportedBindGroupIndex`
-    (some binding sits in a group without argument buffer struct) — `ARGUMENT_BUFFER_NAMES[i]` is never indexed
-    out of range and the `panic!()` of the sort comparator (inline constant in an argument buffer) cannot fire. -/
-theorem msl_metadata_total_or_refused {p : Params} (hsba : p.supportBufferAddress = false) {dflt : Nat}
+/-- **The HLSL metadata builder is total.**  For every module whose object-typed globals use kinds that have a
+    descriptor type, every default group and every parameter set `compile()` can pass: `assign_api_bindings`
+    returns (since fix 774c0b4 it has no panic left: C06 `assign_never_panics`; the hypothesis "the allocator
+    returned" of the former statement is gone), and `analyse_bindings` + `generate_inline_constant_buffers` return a
+    `PipelineDescription` — `bind_groups[buffer.set]` is in range and none of the three asserts
+    (`offset + 8 <= size`, `size == found_size`, `inline_constants == None`) can fire, because per bind group the
+    inline entries account for exactly the bytes the allocator handed out. -/
+theorem hlsl_metadata_total {p : Params} (hp : ParamsOk p) {dflt : Nat} {ds : List MDecl}
+    (hdesc : ∀ n s ss k arr bl st, MDecl.global n s ss (some k) arr bl st ∈ ds → (hlslDescType k).isSome) :
+    ∃ groups, hlslMeta p dflt ds = .ok groups := by
+  obtain ⟨res, h⟩ := RsslVerif.Thm.C06.assign_never_panics p dflt (ds.map MDecl.toSlot)
+  have hev : ∀ d ∈ ds, ∀ ob, ∃ o, hlslEvent d ob = .ok o := by
+    intro d hd ob
+    cases d with
+    | other => exact ⟨none, rfl⟩
+    | cbuffer n s => cases ob <;> exact ⟨_, rfl⟩
+    | global n s ss k arr bl st =>
+      have hdo : ∃ dt, descOf hlslDescType hlslNonObjectDescType k = .ok dt := by
+        cases k with
+        | none => exact ⟨_, rfl⟩
+        | some k =>
+          have := hdesc n s ss k arr bl st hd
+          cases hk : hlslDescType k with
+          | none => simp [hk] at this
+          | some dt => exact ⟨dt, by simp [descOf, hk]⟩
+      obtain ⟨dt, hdt⟩ := hdo
+      cases ob with
+      | none => exact ⟨none, by simp [hlslEvent, hdt]⟩
+      | some b =>
+        exact ⟨some (b.set, { name := n, loc := b.loc, descType := dt, count := countOf arr, bindless := bl,
+                              used := true, staticSampler := ss }), by simp [hlslEvent, hdt]⟩
+  obtain ⟨evs, hevs⟩ := events_total ds hev res.bindings 0
+  exact hlslMeta_ok_of_events hp h hevs
+
+open RsslVerif.Lemmas.MetaTotal RsslVerif.Lemmas.Slots in
+/-- **HLSL: metadata, or the clean refusal — for every module.**  Whatever the globals are (including globals of the
+    object kinds without a register class — `RayDesc`, `RayQuery`, `TriangleStream`, the mips views — on which the
+    allocator used to panic on DirectX before fix 774c0b4): the HLSL metadata builder returns a `PipelineDescription`
+    or `Err(UnsupportedObjectType)`; no panic, no assert, no out-of-range index on any path. -/
+theorem hlsl_metadata_total_or_refused {p : Params} (hp : ParamsOk p) (dflt : Nat) (ds : List MDecl) :
+    (∃ groups, hlslMeta p dflt ds = .ok groups) ∨ hlslMeta p dflt ds = .error "UnsupportedObjectType" := by
+  obtain ⟨res, h⟩ := RsslVerif.Thm.C06.assign_never_panics p dflt (ds.map MDecl.toSlot)
+  rcases events_hlsl_cases ds res.bindings 0 with ⟨evs, hevs⟩ | herr
+  · exact Or.inl (hlslMeta_ok_of_events hp h hevs)
+  · right
+    unfold hlslMeta
+    rw [h]
+    simp only
+    rw [herr]
+
+open RsslVerif.Lemmas.MetaTotal RsslVerif.Lemmas.Slots in
+/-- the Metal binding analysis once the allocator returned and every `analyse_bindings` call did, all in groups
+    that have an argument buffer: `ARGUMENT_BUFFER_NAMES[i]` stays in range and the sort (its comparator panics on
+    an inline constant) is the identity -/
+theorem mslMeta_ok_of_events {p : Params} (hsba : p.supportBufferAddress = false) {dflt : Nat}
     {usedAt : Nat → Bool} {ds : List MDecl} {res : Result}
-    (h : assign p dflt (ds.map MDecl.toSlot) = .ok res)
-    (hdesc : ∀ n s ss k arr bl st, MDecl.global n s ss (some k) arr bl st ∈ ds → (mslDescType k).isSome) :
-    (∃ groups, mslMeta p dflt usedAt ds = .ok groups) ∨
-    mslMeta p dflt usedAt ds = .error "UnsupportedBindGroupIndex" := by
+    (h : assign p dflt (ds.map MDecl.toSlot) = .ok res) {evs : List (Nat × Entry)}
+    (hev : events (fun i => mslEvent (usedAt i)) 0 ds res.bindings = .ok evs)
+    (hlt : ∀ x ∈ evs, x.1 < argumentBufferNames.length) :
+    ∃ groups, mslMeta p dflt usedAt ds = .ok groups := by
   have hp : ParamsOk p := by intro hb; rw [hsba] at hb; cases hb
   unfold mslMeta
   rw [h]
   simp only
+  rw [hev]
+  simp only
+  have hlen : (registerAll evs []).length ≤ argumentBufferNames.length :=
+    length_registerAll_le evs [] hlt (by simp)
+  rw [if_neg (by omega)]
+  have hag := RsslVerif.Thm.C06.binding_complete hp h
+  have hgood := assign_good h
+  have hidx := all_index hsba _ _ hag hgood
+  refine ⟨registerAll evs [], ?_⟩
+  apply sortGroups_id
+  intro grp hgrp
+  obtain ⟨k, hk⟩ := List.getElem?_of_mem hgrp
+  have hb : bindingsAt (registerAll evs []) k = grp.bindings := by simp [bindingsAt, hk]
+  rw [bindingsAt_registerAll, bindingsAt_nil, List.nil_append] at hb
+  have hl := events_locs (fun i => mslEvent_ok (usedAt i)) k ds res.bindings 0 evs hag hev
+  have hr := indexRanges_locs (p := p) (dflt := dflt) k _ _ hag hidx
+  have htile := RsslVerif.Thm.C06.index_ranges_tile hp h k
+  apply sortGroup_id (ks := (RsslVerif.Spec.Slots.indexRanges p k (ds.map MDecl.toSlot) res.bindings).map (·.1))
+  · rw [← hb, List.map_map, List.map_map]
+    exact hl.trans hr.symm
+  · exact (List.pairwise_map).2 (tiles_sorted htile).2
+
+open RsslVerif.Lemmas.MetaTotal RsslVerif.Lemmas.Slots in
+/-- **Metal: metadata, or the clean refusal.**  Without buffer addresses (Metal's parameter set), for every module
+    whose object-typed globals use kinds that have a descriptor type: the allocator returns (C06
+    `assign_never_panics`; the former hypothesis is gone) and the Metal metadata builder either returns a
+    `PipelineDescription` or refuses the file with `UnsupportedBindGroupIndex` (some binding sits in a group without
+    argument buffer struct) — `ARGUMENT_BUFFER_NAMES[i]` is never indexed out of range and the `panic!()` of the sort
+    comparator (inline constant in an argument buffer) cannot fire. -/
+theorem msl_metadata_total_or_refused {p : Params} (hsba : p.supportBufferAddress = false) {dflt : Nat}
+    {usedAt : Nat → Bool} {ds : List MDecl}
+    (hdesc : ∀ n s ss k arr bl st, MDecl.global n s ss (some k) arr bl st ∈ ds → (mslDescType k).isSome) :
+    (∃ groups, mslMeta p dflt usedAt ds = .ok groups) ∨
+    mslMeta p dflt usedAt ds = .error "UnsupportedBindGroupIndex" := by
+  obtain ⟨res, h⟩ := RsslVerif.Thm.C06.assign_never_panics p dflt (ds.map MDecl.toSlot)
   rcases events_msl_cases usedAt (by decide) ds hdesc res.bindings 0 with ⟨evs, hev, hlt⟩ | herr
-  · left
-    rw [hev]
-    simp only
-    have hlen : (registerAll evs []).length ≤ argumentBufferNames.length :=
-      length_registerAll_le evs [] hlt (by simp)
-    rw [if_neg (by omega)]
-    have hag := RsslVerif.Thm.C06.binding_complete hp h
-    have hgood := assign_good h
-    have hidx := all_index hsba _ _ hag hgood
-    refine ⟨registerAll evs [], ?_⟩
-    apply sortGroups_id
-    intro grp hgrp
-    obtain ⟨k, hk⟩ := List.getElem?_of_mem hgrp
-    have hb : bindingsAt (registerAll evs []) k = grp.bindings := by simp [bindingsAt, hk]
-    rw [bindingsAt_registerAll, bindingsAt_nil, List.nil_append] at hb
-    have hl := events_locs (fun i => mslEvent_ok (usedAt i)) k ds res.bindings 0 evs hag hev
-    have hr := indexRanges_locs (p := p) (dflt := dflt) k _ _ hag hidx
-    have htile := RsslVerif.Thm.C06.index_ranges_tile hp h k
-    apply sortGroup_id (ks := (RsslVerif.Spec.Slots.indexRanges p k (ds.map MDecl.toSlot) res.bindings).map (·.1))
-    · rw [← hb, List.map_map, List.map_map]
-      exact hl.trans hr.symm
-    · exact (List.pairwise_map).2 (tiles_sorted htile).2
+  · exact Or.inl (mslMeta_ok_of_events hsba h hev hlt)
   · right
+    unfold mslMeta
+    rw [h]
+    simp only
     rw [herr]
+
+open RsslVerif.Lemmas.MetaTotal RsslVerif.Lemmas.Slots in
+/-- **Metal export: a description, or one of three clean refusals — for every module and every pipeline.**
+    Whatever the globals are and whatever the stage entry points reach: `generate_pipeline` returns the
+    `PipelineDescription` or `Err(UnsupportedObjectType)` / `Err(UnsupportedBindGroupIndex(_))` /
+    `Err(UnboundGlobal)`.  The last one is new with fix 2ba03a4: a stage entry point that reaches an extern global
+    without a place in an argument buffer (a 2-D resource array, a struct holding resources, a loose constant) used to
+    panic on `global_to_set_index.get(gid).unwrap()`. -/
+theorem msl_export_total_or_refused {p : Params} (hsba : p.supportBufferAddress = false) (dflt : Nat)
+    (usedAt : Nat → Bool) (hasPipeline : Bool) (ds : List MDecl) :
+    (∃ groups, mslExport p dflt usedAt hasPipeline ds = .ok groups) ∨
+    mslExport p dflt usedAt hasPipeline ds = .error "UnsupportedObjectType" ∨
+    mslExport p dflt usedAt hasPipeline ds = .error "UnsupportedBindGroupIndex" ∨
+    mslExport p dflt usedAt hasPipeline ds = .error "UnboundGlobal" := by
+  obtain ⟨res, h⟩ := RsslVerif.Thm.C06.assign_never_panics p dflt (ds.map MDecl.toSlot)
+  rcases events_msl_cases_any usedAt ds res.bindings 0 with ⟨evs, hev, hlt⟩ | herr | herr
+  · obtain ⟨groups, hg⟩ := mslMeta_ok_of_events (usedAt := usedAt) hsba h hev hlt
+    unfold mslExport
+    rw [hg, h]
+    simp only
+    split
+    · exact Or.inr (Or.inr (Or.inr rfl))
+    · exact Or.inl ⟨groups, rfl⟩
+  · right; right; left
+    unfold mslExport mslMeta
+    rw [h]
+    simp only
+    rw [herr]
+  · right; left
+    unfold mslExport mslMeta
+    rw [h]
+    simp only
+    rw [herr]
+
+open RsslVerif.Lemmas.MetaTotal in
+/-- **Metal: what a stage reaches is bound.**  When a pipeline is exported (the export returns), every extern global
+    — cbuffer or global variable that is no static sampler — that some stage entry point requires has an api slot,
+    hence (`annot_iff_entry`, `used_flag`) an `[[id]]` member and a metadata entry marked used: with fix 2ba03a4
+    "reachable ⇒ reported used" holds for *every* declaration the stages reach, also for those the allocator leaves
+    alone (2-D arrays, structs holding resources), because their pipelines are refused (`UnboundGlobal`) instead of
+    being exported with a dangling argument.  Conversely the refusal always names such a declaration. -/
+theorem msl_reached_argument_is_bound {p : Params} {dflt : Nat} {usedAt : Nat → Bool} {ds : List MDecl} :
+    (∀ groups, mslExport p dflt usedAt true ds = .ok groups →
+      mslMeta p dflt usedAt ds = .ok groups ∧
+      ∃ res, assign p dflt (ds.map MDecl.toSlot) = .ok res ∧
+        ∀ i d, ds[i]? = some d → usedAt i = true → isStageArgument d = true → ∃ b, res.bindings[i]? = some (some b)) ∧
+    (mslExport p dflt usedAt true ds = .error "UnboundGlobal" →
+      ∃ res, assign p dflt (ds.map MDecl.toSlot) = .ok res ∧
+        ∃ i d, ds[i]? = some d ∧ usedAt i = true ∧ isStageArgument d = true ∧ res.bindings[i]? = some none) := by
+  constructor
+  · intro groups h
+    unfold mslExport at h
+    split at h
+    · cases h
+    · rename_i gs hgs
+      split at h
+      · cases h
+      · rename_i res hres
+        split at h
+        · cases h
+        · rename_i hun
+          simp only [Except.ok.injEq] at h
+          subst h
+          refine ⟨hgs, res, hres, ?_⟩
+          intro i d hd hu ha
+          have hl : res.bindings.length = ds.length := by simpa using assign_length hres
+          have hf : mslUnbound usedAt 0 ds res.bindings = false := by simpa using hun
+          exact mslUnbound_false usedAt ds res.bindings 0 hl hf i d hd (by simpa using hu) ha
+  · intro h
+    unfold mslExport at h
+    split at h
+    · rename_i e he
+      -- an error of the binding analysis is never `UnboundGlobal`
+      simp only [Except.error.injEq] at h
+      subst h
+      exfalso
+      unfold mslMeta at he
+      split at he
+      · rename_i e' he'
+        obtain ⟨res, hres⟩ := RsslVerif.Thm.C06.assign_never_panics p dflt (ds.map MDecl.toSlot)
+        rw [hres] at he'
+        cases he'
+      · rename_i res hres
+        rcases events_msl_cases_any usedAt ds res.bindings 0 with ⟨evs, hev, _⟩ | herr | herr
+        · rw [hev] at he
+          simp only at he
+          split at he
+          · simp at he
+          · have := sortGroups_error _ _ he
+            simp at this
+        · rw [herr] at he; simp at he
+        · rw [herr] at he; simp at he
+    · rename_i gs hgs
+      split at h
+      · rename_i e he
+        obtain ⟨res, hres⟩ := RsslVerif.Thm.C06.assign_never_panics p dflt (ds.map MDecl.toSlot)
+        rw [hres] at he
+        cases he
+      · rename_i res hres
+        split at h
+        · rename_i hun
+          refine ⟨res, hres, ?_⟩
+          have ht : mslUnbound usedAt 0 ds res.bindings = true := by simpa using hun
+          obtain ⟨j, d, hd, hu, ha, hb⟩ := mslUnbound_true usedAt ds res.bindings 0 ht
+          exact ⟨j, d, hd, by simpa using hu, ha, hb⟩
+        · cases h
 
 /-! ## descriptor_kind_count -/
 
@@ -771,17 +920,6 @@ theorem entry_named_and_defined (msl : Bool) (funcs : List FuncDef) (s : StageDe
     · intro t ht; simp [ht, lastNumThreads]
     · intro ht; simp [ht, lastNumThreads]
 
-/-- The front end accepts several `[numthreads]` attributes on one function; the stage then reports the last one
-    while the emitted function carries all of them: with two different attributes the emitted source has no
-    single thread group size the report could agree with (negation witness for "reported = emitted" beyond
-    single-attribute functions; replayed on the real compiler by corpus requests with `nt3`). -/
-theorem thread_group_size_ambiguous_witness :
-    ∃ (funcs : List FuncDef) (s : StageDef) (r : StageOut) (attrs : List (Nat × Nat × Nat)) (t : Nat × Nat × Nat),
-      reportStage false funcs s = some r ∧ emittedStage false funcs s = some (r.entryPoint, attrs) ∧
-      t ∈ attrs ∧ r.threadGroupSize ≠ some t :=
-  ⟨[{ name := "cs_0", emitted := "cs_0", attrs := [(9, 4, 1), (8, 4, 1)] }], { stage := .Compute, entry := 0 },
-   ⟨.Compute, "cs_0", some (8, 4, 1)⟩, [(9, 4, 1), (8, 4, 1)], (9, 4, 1), rfl, rfl, by simp, by simp⟩
-
 /-- the renamed entry point of the former defect: reported and emitted names are both `float16_t_0` -/
 example : reportStage false [{ name := "float16_t", emitted := "float16_t_0", attrs := [(8, 4, 1)] }]
       { stage := .Compute, entry := 0 } = some ⟨.Compute, "float16_t_0", some (8, 4, 1)⟩ := rfl
@@ -822,6 +960,54 @@ theorem reported_size_is_the_typers_record {funcs : List FnSrc} {earlier : List 
   refine ⟨{ stage := s.stage, entryPoint := if msl then mslEntryName s.stage else g.emitted,
             threadGroupSize := lastNumThreads g.attrs }, by simp [reportStage, hg], rfl, ?_⟩
   simp [htg, hga]
+
+open RsslVerif.Model.MetaFront RsslVerif.Lemmas.MetaFront in
+/-- **The reported thread group size is the emitted one.**  Since fix 0f5be73 ("a function attribute can be given
+    only once") a file the front end accepts declares no function with a second `numthreads` attribute.  So for
+    every pipeline of an accepted file, every stage record and both back ends: the stage reports the emitted entry
+    function, and the thread group size attributes that function is emitted with are *exactly* the reported size
+    (`[]` when none is reported, `[t]` when `t` is) — for every stage kind.  This replaces the negation witness
+    `thread_group_size_ambiguous_witness` (two attributes, the report agreeing with only one of them).
+    `funcs` = the function registry: the functions of the file and the intrinsics (which carry no attribute). -/
+theorem reported_thread_group_size_is_emitted {funcs : List FnSrc} {items : List Item} {ds : List PipeDef}
+    (h : parseFile funcs [] items = .ok ds)
+    (hfuncs : ∀ f ∈ funcs, f ∈ itemFns items ∨ f.attrs = [])
+    {fdefs : List FuncDef} (msl : Bool)
+    (hsame : ∀ (i : Nat) (f : FnSrc), funcs[i]? = some f → ∃ g : FuncDef, fdefs[i]? = some g ∧ g.attrs = f.attrs) :
+    ∀ d ∈ ds, ∀ s ∈ d.stages, ∃ r, reportStage msl fdefs { stage := s.stage, entry := s.entry } = some r ∧
+      emittedStage msl fdefs { stage := s.stage, entry := s.entry } = some (r.entryPoint, r.threadGroupSize.toList) ∧
+      r.stage = s.stage ∧ r.threadGroupSize = s.threadGroupSize := by
+  intro d hd s hs
+  obtain ⟨hpipes, hone⟩ := parseFile_ok h
+  obtain ⟨p, _, e, hp⟩ := parsePipelines_mem hpipes d hd
+  obtain ⟨_, _, _, hall⟩ := stage_records_follow_properties hp
+  obtain ⟨_, _, _, _, f, hf, _, _, _, htg⟩ := hall s hs
+  obtain ⟨g, hg, hga⟩ := hsame _ f hf
+  have hlen : f.attrs.length ≤ 1 := by
+    rcases hfuncs f (List.mem_of_getElem? hf) with hm | he
+    · exact hone f hm
+    · simp [he]
+  refine ⟨{ stage := s.stage, entryPoint := if msl then mslEntryName s.stage else g.emitted,
+            threadGroupSize := lastNumThreads g.attrs }, by simp [reportStage, hg], ?_, rfl, by simp [htg, hga]⟩
+  simp only [emittedStage, hg, Option.some.injEq, Prod.mk.injEq]
+  refine ⟨?_, ?_⟩
+  · cases msl with
+    | true => simp [msl_entry_names_agree]
+    | false => simp
+  · rw [hga]; exact lastNumThreads_of_length hlen
+
+open RsslVerif.Model.MetaFront in
+/-- the former witness is now refused by the front end, whatever follows the function … -/
+example : parseFile [⟨"cs_0", [(9, 4, 1), (8, 4, 1)], true, false⟩] []
+    [.fn ⟨"cs_0", [(9, 4, 1), (8, 4, 1)], true, false⟩, .pipe ⟨"P0", [(.Compute, "cs_0")], none, false⟩] =
+    .error .FunctionAttributeDuplicate := rfl
+
+open RsslVerif.Model.MetaFront in
+/-- … while the same file with one attribute is accepted and records it (the hypotheses of
+    `reported_thread_group_size_is_emitted` are satisfiable) -/
+example : (parseFile [⟨"cs_0", [(8, 4, 1)], true, false⟩] []
+    [.fn ⟨"cs_0", [(8, 4, 1)], true, false⟩, .pipe ⟨"P0", [(.Compute, "cs_0")], none, false⟩]).toOption.map
+      (·.map (·.stages)) = some [[⟨.Compute, 0, some (8, 4, 1)⟩]] := by decide
 
 open RsslVerif.Model.MetaFront RsslVerif.Lemmas.MetaFront in
 /-- the pipelines of an accepted file have pairwise different names: selecting by name is unambiguous -/
